@@ -342,9 +342,15 @@ pub trait Language: Debug + Clone + Hash + Eq + Ord {
             prv = self.private_slots();
         }
 
+        // one fresh slot per distinct uncovered slot, not per occurrence.
+        let mut fresh = SlotMap::new();
         let mut c = self.clone();
         for x in c.public_slot_occurrences_mut() {
-            let y = m.get(*x).unwrap_or_else(Slot::fresh);
+            let y = m.get(*x).or_else(|| fresh.get(*x)).unwrap_or_else(|| {
+                let f = Slot::fresh();
+                fresh.insert(*x, f);
+                f
+            });
 
             // If y collides with a private slot, we have a problem.
             if CHECKS {
